@@ -28,8 +28,10 @@ static std::vector<Variant> V;
 static uint64_t g_obs_mod = 64;
 
 // local counters (flushed to run.count at the end)
-static long long n_trees = 0, n_checked = 0, n_skip[8] = {0}, n_lift = 0, n_lift_skipped = 0, n_y0 = 0, n_obs = 0, n_unblamed = 0;
+static long long n_trees = 0, n_checked = 0, n_skip[8] = {0}, n_lift = 0, n_lift_skipped = 0, n_y0 = 0, n_obs = 0, n_unblamed = 0, n_explained = 0;
 static std::vector<long long> g_fail_per_variant;
+static std::vector<std::array<bool, NKINDS>> g_broken;     // per variant: operator forms already blamed (failures of trees containing them are explained)
+static int g_blamed_kind = -1;
 
 static const double TOL_V = 1e-14, TOL_D = 1e-12, FLOOR = 1e-300;
 
@@ -63,8 +65,9 @@ static void blame(const Variant& v, const Tree& t) {
         const std::string rp = "{\"case\": " + vf::jstr(casestr(v, sub)) + ", \"found_in\": " + vf::jstr(casestr(v, t)) + "}";
         int slot = -1, what = 0;
         try { v.eval(t, idx, v.n, out); what = compare(out, ref, v.n, &slot); }
-        catch (const std::exception& e) { R->violation("C16:" + v.cls + ":" + op + ":throws", casestr(v, sub) + " threw: " + e.what(), rp); return; }
+        catch (const std::exception& e) { g_blamed_kind = x.kind; R->violation("C16:" + v.cls + ":" + op + ":throws", casestr(v, sub) + " threw: " + e.what(), rp); return; }
         if (!what) continue;
+        g_blamed_kind = x.kind;
         bool y0 = false;
         if (x.kind == ATAN2_EE || x.kind == ATAN2_SE) { Dual yr; Tree ys = subtree(t, x.kind == ATAN2_EE ? x.b : x.a); if (ref_eval(ys, ys.root(), 1, yr) == SK_OK && yr.v == 0) y0 = true; }
         if (y0) {
@@ -110,7 +113,10 @@ static void check_tree(const Tree& t, int only = -1) {
         try { v.eval(t, t.root(), v.n, out); what = compare(out, ref, v.n, &slot); }
         catch (const std::exception&) { threw = true; }
         if (what || threw) {
-            if (g_fail_per_variant[vi]++ < 5000) { R->current(casestr(v, t)); blame(v, t); }
+            bool explained = false;
+            for (int i = 0; i < t.cnt && !explained; ++i) explained = g_broken[vi][t.n[i].kind];
+            if (explained) { n_explained++; R->count("violations_total"); }      // contains an operator form already reported for this variant
+            else if (g_fail_per_variant[vi]++ < 5000) { R->current(casestr(v, t)); g_blamed_kind = -1; blame(v, t); if (g_blamed_kind > 0) g_broken[vi][g_blamed_kind] = true; }
             else { n_unblamed++; R->count("violations_total"); }
             continue;
         }
@@ -202,10 +208,11 @@ int main(int argc, char** argv) {
     reg_1(V); reg_2(V); reg_3(V); reg_4(V); reg_5(V); reg_6(V); reg_7(V); reg_8(V); reg_9(V); reg_10(V); reg_11(V); reg_12(V);
     reg_13(V); reg_14(V); reg_15(V); reg_16(V); reg_dynamic(V, dyn_sizes);
     g_fail_per_variant.assign(V.size(), 0);
+    { std::array<bool, NKINDS> z; z.fill(false); g_broken.assign(V.size(), z); }
     g_obs_mod = thorough ? 256 : 64;
 
     run.rule = std::string("ALL expression trees of depth <= 2") + (thorough ? " plus ALL trees of depth 3 with <= 5 nodes (leaves counted)" : "")
-        + " over 48 operator forms: + - * / as Eval.Eval / Eval.scalar / scalar.Eval, += -= *= /= with Evaluation and scalar rhs, unary minus, pow (3 overloads), sqrt exp log log10 sin cos tan asin acos atan sinh cosh asinh acosh abs, atan2 min max (3 forms each);"
+        + " over 62 operator forms: + - * / as Eval.Eval / Eval.scalar / scalar.Eval, += -= *= /= with Evaluation and scalar rhs, unary minus, pow (3 overloads), sqrt exp log log10 sin cos tan asin acos atan sinh cosh asinh acosh abs, atan2 min max (3 forms each), and 14 aliasing forms on one object r: r+=r r-=r r*=r r/=r, r+r r-r r*r r/r, pow(r,r), atan2(r,r), r+=r.value() r-=r.value() r*=r.value() r/=r.value() (scalar rhs is a reference into r's own storage);"
           " leaves x0..x3 = {0.37,-0.62,1.3,2.1} with derivative slot i = +-prime[i]/{9.7,10.1,10.3,10.7}[leaf], scalars c0..c3 = {0.75,2,-1.25,1.3};"
           " executed on EVERY variant: static 1..12, generic 13..16, dynamic<.,8> with run-time sizes " + vf::join_ints(dyn_sizes)
         + "; oracle: independent dual number (value + vector of partials, calculus rules, error scale): value to 1e-14, every partial to 1e-12 relative to the conditioning scale;"
@@ -215,7 +222,7 @@ int main(int argc, char** argv) {
         "reference dual-number evaluator in the harness (calculus rules + first-order error scale) and libm's scalar functions are trusted",
         "values: the 4-leaf / 4-scalar fingerprint alphabet only; the tree structure (operator x operator x operand form x leaf assignment) is exhaustive up to the bound, the real line is not",
         "trees whose reference leaves a function's domain (log/sqrt <= 0, |asin/acos arg| >= 1, acosh arg <= 1, division by 0, pow with base <= 0 resp. negative base and non-integer exponent, atan2(0,0)), sits on a kink (abs(0), min/max tie), is ill-conditioned by the formula itself (|asin/acos arg| > 0.99, acosh arg < 1.01) or leaves 1e-60..1e60 are skipped and counted",
-        "scalar operands are double only (int / float RhsValueType not enumerated); ValueType = double only; self-aliasing compound assignment (a *= a) not enumerated",
+        "scalar operands are double only (int / float RhsValueType not enumerated); ValueType = double only",
         "Evaluation factories other than createConstant + setDerivative (createVariable, createBlank, copyDerivatives) are outside this property's operator/function scope"};
 
     if (!rv.empty()) {
@@ -289,5 +296,6 @@ int main(int argc, char** argv) {
     run.count("mixed_vs_lifted_skipped_pow_negative_base", n_lift_skipped);
     run.count("observations_recorded", n_obs);
     if (n_unblamed) run.count("failures_not_minimised", n_unblamed);
+    if (n_explained) run.count("failures_in_trees_containing_an_already_reported_form", n_explained);
     return run.finish();
 }
